@@ -33,7 +33,10 @@ Vertices are identified up to: exact point + "is a connector end point (which on
 treats any two of them at one position as equal) collapse to one `node` per point, as they do inside every
 `BreakpointSet`.
 
-`fixConnectionPointVisibilityOnOutsideOfVisibilityGraph` is `Scene.fixDirs`.
+`fixConnectionPointVisibilityOnOutsideOfVisibilityGraph` is `Scene.fixDirs`;
+`LineSegment::setLongRangeVisibilityFlags` (`VertInf::orthogVisPropFlags`) is `Scene.flagParts` (last section).
+A connector end point is any vertex of the `conns` part of the router's vertex list that has a direction:
+connector ends and `ShapeConnectionPin` vertices alike (the harness lists them in vertex-id order).
 Theorems: `Props/C05OrthVis.lean`; tie: `Driver/C05OrthVis.lean` (exact edge-set equality with the dumped
 `Router::visOrthogGraph`).
 -/
